@@ -13,6 +13,19 @@ Regimes (cfg["mode"]):
 """
 import itertools
 import json
+import resource
+
+# The model is evaluated by coqc (vm_compute) on lists of up to a few 10^5 bytes (large writes);
+# list functions recurse as deep as the lists are long, so the child processes need a big stack.
+try:
+    _soft, _hard = resource.getrlimit(resource.RLIMIT_STACK)
+    _want = 4 << 30
+    if _hard != resource.RLIM_INFINITY:
+        _want = min(_want, _hard)
+    if _soft != resource.RLIM_INFINITY and _soft < _want:
+        resource.setrlimit(resource.RLIMIT_STACK, (_want, _hard))
+except (ValueError, OSError):
+    pass
 
 CLIENT_SID, SERVER_SID = 1, 2
 PORT = 9000
@@ -25,7 +38,46 @@ def coq_list(xs):
 
 
 def coq_bytes(bs):
+    """an explicit byte list, a pattern {"pat": [s, len]}, or ("rest", spec, k): the pattern minus its first k bytes"""
+    if isinstance(bs, tuple):
+        _, spec, k = bs
+        return "(skipn (N.to_nat %d%%N) %s)" % (k, coq_bytes(spec))
+    if isinstance(bs, dict):
+        return "(pat %d%%N %d%%N)" % (bs["pat"][0], bs["pat"][1])
     return "[" + "; ".join("%d%%N" % b for b in bs) + "]"
+
+
+def expand(bs):
+    """the bytes a data spec stands for"""
+    if isinstance(bs, tuple):
+        return expand(bs[1])[bs[2]:]
+    if isinstance(bs, dict):
+        s0, ln = bs["pat"]
+        return [(s0 + i) % 251 for i in range(ln)]
+    return list(bs)
+
+
+def coq_nat(n):
+    return str(n) if n < 1000 else "(N.to_nat %d%%N)" % n
+
+
+def resolve_offers(case, obs):
+    """(step, host, idx) -> data spec actually offered by a *_rest command (follows the counts the
+    implementation returned)"""
+    res = {(r[0], r[1], r[2]): r[3] for r in obs["res"]}
+    offers, out = {}, {}
+    for k, st in enumerate(case["steps"]):
+        for h in sorted(int(x) for x in st.get("hosts", {})):
+            for i, cmd in enumerate(st["hosts"][str(h)]):
+                if cmd[0] == "offer":
+                    offers[cmd[1]] = [cmd[2], 0]
+                elif cmd[0] in ("try_write_rest", "write_rest") and cmd[1] in offers:
+                    spec, off = offers[cmd[1]]
+                    out[(k, h, i)] = ("rest", spec, off)
+                    r = res.get((k, h, i))
+                    if isinstance(r, list) and r[0] == "ok":
+                        offers[cmd[1]][1] += r[1]
+    return out
 
 
 # ---- prologue ---------------------------------------------------------------
@@ -101,9 +153,17 @@ def cmd_events(cmd, hv):
             hv.split[sid] = True
         return [(None, "none" if ok else "invalid")]
     if name == "read":
-        return [("Read %s %d" % (x, cmd[2]), "res")]
+        return [("Read %s %s" % (x, coq_nat(cmd[2])), "res")]
     if name == "peek":
-        return [("Peek %s %d" % (x, cmd[2]), "res")]
+        return [("Peek %s %s" % (x, coq_nat(cmd[2])), "res")]
+    if name == "offer":
+        return [(None, "none")]
+    if name in ("try_write_rest", "write_rest"):
+        data = cmd[2] if len(cmd) > 2 else None          # filled in by to_model
+        if data is None:
+            return [(None, "invalid")]
+        ev = "Write" if (name == "write_rest" or hv.split[sid]) else "TryWrite"
+        return [("%s %s %s" % (ev, x, coq_bytes(data)), "res")]
     if name == "shutdown":
         return [("Shutdown %s" % x, "res")]
     if name == "split":
@@ -161,6 +221,7 @@ def to_model(case, obs):
     evs, probes = [], []
     hv = Halves()
     healthy = mode == "remote"          # until the first hold
+    offered = resolve_offers(case, obs)
     wbg = {}                            # sid -> data of a write_all task that has not completed yet
     wdone = {b[2]: b[0] for b in obs.get("bg", [])}
     for k in range(npro, len(case["steps"])):
@@ -195,6 +256,8 @@ def to_model(case, obs):
                 if healthy:
                     evs.append("MatureAll")
             for i, cmd in enumerate(st.get("hosts", {}).get(str(h), [])):
+                if cmd[0] in ("try_write_rest", "write_rest"):
+                    cmd = [cmd[0], cmd[1], offered.get((k, h, i))]
                 if cmd[0] == "write_bg" and hv.w[cmd[1]] and not hv.gone[cmd[1]]:
                     if mode != "remote":
                         problems.append("write_bg is only supported on remote pairs")
@@ -246,7 +309,16 @@ def expect_from_model(m):
         return "none"
     if tag == 6:
         return "invalid"
+    if tag == 8:
+        return ("long", nums[0], nums[1])
     return ("view", nums, lists)
+
+
+def digest(bs):
+    a = 0
+    for i, b in enumerate(bs):
+        a = (a + (i + 1) * (b + 1)) % 1000003
+    return a
 
 
 def compare(case, obs, model, probes):
@@ -311,6 +383,12 @@ def compare(case, obs, model, probes):
         want = expect_from_model(model[idx]) if exp == "res" else exp
         if exp == "none":
             want = "none"
+        if isinstance(want, tuple) and want[0] == "long":
+            if not (isinstance(got, list) and got[0] == "ok" and len(got) == 2 and isinstance(got[1], list)
+                    and len(got[1]) == want[1] and digest(got[1]) == want[2]):
+                desc = ("%d bytes, digest %d" % (len(got[1]), digest(got[1]))) if isinstance(got, list) and len(got) == 2 and isinstance(got[1], list) else got
+                return "command %s: implementation read %s, model %d bytes, digest %d" % (key, desc, want[1], want[2])
+            continue
         if got != want:
             return "command %s: implementation %s, model %s" % (key, got, want)
     return None
@@ -606,6 +684,46 @@ def gen_blocked_writer(rng):
         body.append({"ctl": [["deliver", c, s, 0]] if held else [], "hosts": hosts})
     body.append({"ctl": [], "hosts": {str(w_host): [["count"]], str(r_host): [["count"]]}})
     return build_case(cfg, body, "blocked-writer")
+
+
+def gen_large(rng, mode=None):
+    """Single writes larger than 64 KiB (up to a few hundred KiB) under a small tcp_capacity or a
+    window that earlier small writes have mostly filled: through write_all (a task), through a
+    try_write / poll_write loop that advances by the returned count, and as one plain try_write;
+    the reader drains with 64 KiB .. 100 KB buffers to EOF."""
+    cfg = base_cfg(rng, mode or rng.choice(["remote", "remote", "remote", "loop", "same"]))
+    cfg["cap"] = rng.choice([1, 2, 2, 3, 4])
+    c, s = hosts_of(cfg)
+    remote = cfg["mode"] == "remote"
+    held = remote and rng.random() < 0.6
+    w_host, w_sid, r_host, r_sid = (c, CLIENT_SID, s, SERVER_SID) if rng.random() < 0.5 else (s, SERVER_SID, c, CLIENT_SID)
+    size = rng.choice([65537, 70000, 131073, 140000, 200000])
+    spec = {"pat": [rng.randrange(251), size]}
+    how = rng.choice(["write_all", "rest", "rest", "plain"]) if remote else rng.choice(["rest", "rest", "plain"])
+    cap = cfg["cap"]
+    nsmall = rng.choice([0, 0, max(0, cap - 1), cap])
+    by = Bytes()
+    wc = [["try_write", w_sid, by.take(rng.choice([1, 2]))] for _ in range(nsmall)]
+    if how == "write_all":
+        wc.append(["write_bg", w_sid, spec])
+    elif how == "plain":
+        wc.append(["try_write", w_sid, spec])
+    else:
+        wc.append(["offer", w_sid, spec])
+        wc.append([rng.choice(["try_write_rest", "write_rest"]), w_sid])
+    body = [{"ctl": [["hold", c, s]] if held else [], "hosts": {str(w_host): wc}}]
+    rn = rng.choice([65536, 100000, 100000])
+    for t in range(rng.randrange(10, 14)):
+        hosts = {str(r_host): [["read", r_sid, rn]] * rng.choice([1, 2])}
+        if how == "rest":
+            hosts[str(w_host)] = [[rng.choice(["try_write_rest", "write_rest"]), w_sid]] * rng.choice([1, 2])
+        body.append({"ctl": [["deliver", c, s, 0]] if held else [], "hosts": hosts})
+    body.append({"ctl": [["deliver", c, s, 0]] if held else [], "hosts": {str(w_host): [["shutdown", w_sid]]}})
+    for t in range(8):
+        body.append({"ctl": [["deliver", c, s, 0]] if held else [], "hosts": {str(r_host): [["read", r_sid, rn]] * 2}})
+    for t in range(6):
+        body.append({"ctl": [["deliver", c, s, 0]] if held else [], "hosts": {str(r_host): [["read", r_sid, rn]]}})
+    return build_case(cfg, body, "large-" + cfg["mode"])
 
 
 def gen_parked(rng, mode=None):
